@@ -143,7 +143,9 @@ theorem pair_rt (env : Env) (mode : Mode) (l r : Ty) (a : Annot) (ihl : RT env m
       obtain ⟨p, q, rest, rfl⟩ : ∃ p q rest, cb = p :: q :: rest := by
         match cb, hlen with
         | p :: q :: rest, _ => exact ⟨p, q, rest, rfl⟩
+      have hrp : r.isPair = true := isPair_of_hasTy_pair env r ny c d hy
       have hm := pairOfMich_many a.named (ofMichCore env l) (ofMichCore env r) (render env mode lz x).1 p q rest x _ fx hs
+      rw [← hrp] at hm
       have hren : render env mode lz (.pair a.named x (.pair ny c d)) =
           (pairNode mode (render env mode lz x).1 mb ((render env mode lz x).1 :: p :: q :: rest),
             (render env mode lz x).1 :: p :: q :: rest) := by
@@ -154,11 +156,11 @@ theorem pair_rt (env : Env) (mode : Mode) (l r : Ty) (a : Annot) (ihl : RT env m
       · cases mode with
         | readable => simpa [pairNode, ofMichCore] using hm.1
         | legacyOptimized =>
-          simpa [pairNode, ofMichCore] using (pairOfMich_two a.named _ _ _ _ x _ fx fy).1
+          simpa [pairNode, ofMichCore] using (pairOfMich_two a.named r.isPair _ _ _ _ x _ fx fy).1
         | optimized =>
           cases rest with
           | nil =>
-            simpa [pairNode, ofMichCore] using (pairOfMich_two a.named _ _ _ _ x _ fx hp).1
+            simpa [pairNode, ofMichCore] using (pairOfMich_two a.named r.isPair _ _ _ _ x _ fx hp).1
           | cons z rest => simpa [pairNode, ofMichCore] using hm.2
       · simpa [ofMichCore] using hm.2
       · simpa [ofMichCore] using hm.1
@@ -168,7 +170,7 @@ theorem pair_rt (env : Env) (mode : Mode) (l r : Ty) (a : Annot) (ihl : RT env m
         rw [render_pair env mode lz a.named x y]
         simp only [hfl]
         cases mode <;> simp [pairNode]
-      have h2 := pairOfMich_two a.named (ofMichCore env l) (ofMichCore env r) _ _ x y fx fy
+      have h2 := pairOfMich_two a.named r.isPair (ofMichCore env l) (ofMichCore env r) _ _ x y fx fy
       rw [hren]
       exact ⟨by simpa [ofMichCore] using h2.1, by simpa [ofMichCore] using h2.2, by simpa [ofMichCore] using h2.1, by simp⟩
   constructor
@@ -282,19 +284,19 @@ theorem rt (env : Env) (hl : env.Lawful) (mode : Mode) : ∀ τ, RT env mode τ 
     have fi := ih.1 (some false) item hi hf
     have fn : leafOfMich env .nat (.int amount) = .ok (.int amount) := by
       simp [leafOfMich, intLit, lit_nat, ha]
-    have inner := pairOfMich_two false (ofMichCore env t) (leafOfMich env .nat) _ _ item (.int amount) fi fn
+    have inner := pairOfMich_two false false (ofMichCore env t) (leafOfMich env .nat) _ _ item (.int amount) fi fn
     cases mode with
     | readable =>
       have outer := pairOfMich_many false (domOfMich env .address)
-        (pairOfMich false (ofMichCore env t) (leafOfMich env .nat)) _ _ _ [] _ _ fa inner.2
+        (pairOfMich false false (ofMichCore env t) (leafOfMich env .nat)) _ _ _ [] _ _ fa inner.2
       simp only [render, ofMichCore, outer.1, ticketOfComb]
     | optimized =>
-      have outer := pairOfMich_two false (domOfMich env .address)
-        (pairOfMich false (ofMichCore env t) (leafOfMich env .nat)) _ _ _ _ fa inner.1
+      have outer := pairOfMich_two false true (domOfMich env .address)
+        (pairOfMich false false (ofMichCore env t) (leafOfMich env .nat)) _ _ _ _ fa inner.1
       simp only [render, ofMichCore, outer.1, ticketOfComb]
     | legacyOptimized =>
-      have outer := pairOfMich_two false (domOfMich env .address)
-        (pairOfMich false (ofMichCore env t) (leafOfMich env .nat)) _ _ _ _ fa inner.1
+      have outer := pairOfMich_two false true (domOfMich env .address)
+        (pairOfMich false false (ofMichCore env t) (leafOfMich env .nat)) _ _ _ _ fa inner.1
       simp only [render, ofMichCore, outer.1, ticketOfComb]
   | saplingState memo a =>
     refine ⟨?_, no_pair (by intro n a b; simp [hasTy])⟩
